@@ -439,9 +439,11 @@ enum Piece {
   L(usize),
   /// occurrence of the scope's context-valued bound name (value `{fld: 2}`)
   C,
+  /// binding site / inner occurrence of a local name that shadows the i-th chosen bound name
+  S(usize),
 }
 
-use Piece::{C, L, N, T};
+use Piece::{C, L, N, S, T};
 
 fn templates() -> Vec<(&'static str, Vec<Piece>)> {
   vec![
@@ -503,6 +505,17 @@ fn templates() -> Vec<(&'static str, Vec<Piece>)> {
     ("path-head", vec![T("("), C, T(" . fld) + "), N(0)]),
     ("path-head", vec![N(0), T(" * "), C, T(".fld")]),
     ("path-head", vec![T("["), C, T("][1].fld")]),
+    // a local name shadows a bound name; the bound name is used again after the inner construct has ended
+    ("shadow-for", vec![T("sum(for "), S(0), T(" in [1, 2] return "), S(0), T(" * 2) + "), N(0), T(" * 3")]),
+    ("shadow-for", vec![T("(for "), S(0), T(" in [1, 2] return "), S(0), T(")[1] + "), N(0), T("-1")]),
+    ("shadow-for", vec![T("["), N(0), T(" + 1, sum(for "), S(0), T(" in [5] return "), S(0), T("), "), N(0), T(" + 2, "), N(1), T(" - 1]")]),
+    ("shadow-some", vec![T("if (some "), S(0), T(" in [1, 2] satisfies "), S(0), T(" > 1) then "), N(0), T(" + 1 else 0")]),
+    ("shadow-every", vec![T("if (every "), S(0), T(" in [1, 2] satisfies "), S(0), T(" > 0) then "), N(0), T(" * 2 else 0")]),
+    ("shadow-function", vec![T("(function("), S(0), T(") "), S(0), T(" + 1)(5) + "), N(0), T(" * 3")]),
+    ("shadow-function", vec![T("{f: function("), S(0), T(": number, "), S(1), T(") "), S(0), T(" + "), S(1), T(", r: f(1, 2) + "), N(0), T(" - "), N(1), T(" + 1}.r")]),
+    ("shadow-context", vec![T("{k: {"), S(0), T(": 1, j: "), S(0), T(" + 1}.j, m: "), N(0), T(" * 3}.m")]),
+    ("shadow-context", vec![T("{k: {"), S(0), T(": 1}, m: "), N(0), T(" + 1}.m")]),
+    ("shadow-nested", vec![T("sum(for "), S(0), T(" in [1, 2] return sum(for "), S(1), T(" in [3] return "), S(1), T(" + "), S(0), T(") + "), S(0), T(" * 2) + "), N(0), T(" * 3 + "), N(1), T(" - 1")]),
     ("comment", vec![N(0), T(" /* c */ + "), N(1)]),
     ("comment", vec![N(0), T(" /* c */ /* d */ // e\n /* f */ + "), N(1)]),
     ("comment", vec![T("/* a */ /* b */ "), N(0), T(" /* c *//* d */")]),
@@ -573,6 +586,8 @@ pub fn run(cfg: &Cfg) -> Report {
     /// (start, end) char offsets of every name occurrence, in order
     occurrences: Vec<(usize, usize)>,
     locals: Vec<Vec<String>>,
+    /// per occurrence: the identifier that replaces it when it is a shadowing local
+    forced: Vec<Option<String>>,
     family: &'static str,
     impl_value: String,
     nontrivial: bool,
@@ -591,7 +606,7 @@ pub fn run(cfg: &Cfg) -> Report {
     let occ = parts.concat();
     let text = format!("{} + 1", occ);
     let impl_value = eval_text(&scope_of(&[b.clone()]), &text);
-    eval_cases.push(EvalCase { text, all_bound: vec![b], occurrences: vec![(0, occ.chars().count())], locals: vec![], family: "operand", impl_value, nontrivial: true, exotic: true });
+    eval_cases.push(EvalCase { text, all_bound: vec![b], occurrences: vec![(0, occ.chars().count())], locals: vec![], forced: vec![None], family: "operand", impl_value, nontrivial: true, exotic: true });
   }
 
   for si in 0..n_scopes {
@@ -647,13 +662,22 @@ pub fn run(cfg: &Cfg) -> Report {
           break t;
         }
       };
-      let chosen: Vec<Bound> = (0..3).map(|_| rng.pick(&numeric).clone()).collect();
+      let mut chosen: Vec<Bound> = (0..3).map(|_| rng.pick(&numeric).clone()).collect();
+      if tpl.iter().any(|p| matches!(p, S(1))) {
+        // two shadowing locals must be different names
+        match numeric.iter().find(|b| b.name != chosen[0].name) {
+          Some(other) if chosen[1].name == chosen[0].name => chosen[1] = other.clone(),
+          Some(_) => {}
+          None => continue,
+        }
+      }
       let mut locals: Vec<Vec<String>> = vec![];
       let l0 = rng.below(LOCALS.len() as u64) as usize;
       locals.push(LOCALS[l0].iter().map(|s| s.to_string()).collect());
       locals.push(LOCALS[(l0 + 1 + rng.below(LOCALS.len() as u64 - 1) as usize) % LOCALS.len()].iter().map(|s| s.to_string()).collect());
       let mut text = String::new();
       let mut occurrences = vec![];
+      let mut forced: Vec<Option<String>> = vec![];
       let mut multi = false;
       for piece in &tpl {
         match piece {
@@ -663,6 +687,14 @@ pub fn run(cfg: &Cfg) -> Report {
             multi |= chosen[*i].parts.len() > 1;
             text.push_str(&render(&mut rng, &chosen[*i].parts));
             occurrences.push((start, text.chars().count()));
+            forced.push(None);
+          }
+          S(i) => {
+            let start = text.chars().count();
+            multi |= chosen[*i].parts.len() > 1;
+            text.push_str(&render(&mut rng, &chosen[*i].parts));
+            occurrences.push((start, text.chars().count()));
+            forced.push(Some(format!("w{}", i)));
           }
           C => {
             let cb = ctx_bound.as_ref().unwrap();
@@ -670,12 +702,14 @@ pub fn run(cfg: &Cfg) -> Report {
             multi |= cb.parts.len() > 1;
             text.push_str(&render(&mut rng, &cb.parts));
             occurrences.push((start, text.chars().count()));
+            forced.push(None);
           }
           L(j) => {
             let start = text.chars().count();
             multi = true;
             text.push_str(&render(&mut rng, &locals[*j]));
             occurrences.push((start, text.chars().count()));
+            forced.push(None);
           }
         }
       }
@@ -685,7 +719,7 @@ pub fn run(cfg: &Cfg) -> Report {
       let imp = impl_tokens(&scope, &text, (false, false, false, false), 400);
       tok_cases.push(TokCase { input: text.clone(), keys: keys.clone(), flags: (false, false, false, false), imp, nontrivial: multi || competing, family: "expression" });
       let exotic_case = chosen.iter().any(|b| b.exotic);
-      eval_cases.push(EvalCase { text, all_bound: bound.clone(), occurrences, locals, family, impl_value, nontrivial: multi || competing, exotic: exotic_case });
+      eval_cases.push(EvalCase { text, all_bound: bound.clone(), occurrences, locals, forced, family, impl_value, nontrivial: multi || competing, exotic: exotic_case });
     }
 
     // (3) a random fragment over the lexer's alphabet, random flags
@@ -817,7 +851,7 @@ pub fn run(cfg: &Cfg) -> Report {
     let mut ok = true;
     let mut resolved = vec![];
     let mut partial = false;
-    for (start, _) in &c.occurrences {
+    for (oi, (start, _)) in c.occurrences.iter().enumerate() {
       let a = &answers[ai];
       ai += 1;
       if *start < cursor || !ok {
@@ -835,7 +869,10 @@ pub fn run(cfg: &Cfg) -> Report {
         None => ok = false,
         Some((name, len)) => {
           expected_text.extend(chars[cursor..*start].iter());
-          if let Some(b) = c.all_bound.iter().find(|b| b.name.to_string() == name) {
+          if let Some(id) = &c.forced[oi] {
+            // a shadowing local: same text as a bound name, replaced by a fresh identifier
+            expected_text.push_str(id);
+          } else if let Some(b) = c.all_bound.iter().find(|b| b.name.to_string() == name) {
             expected_text.push_str(&b.literal);
           } else if let Some(j) = c.locals.iter().position(|l| Name::new(&l.iter().map(|s| s.as_str()).collect::<Vec<&str>>()).to_string() == name) {
             expected_text.push_str(&format!("v{}", j));
